@@ -143,6 +143,15 @@ def gen_index(rng, m, faulty):
         v.append(v[0])  # duplicate: documented NotImplementedError
     if faulty and rng.random() < 0.3:
         v.insert(rng.randint(0, len(v)), oob_value(rng, n) if rng.random() < 0.7 else rng.choice([n, -n - 1]))
+    if faulty and rng.random() < 0.08:
+        # the top of the unsigned 64-bit range: -1 or -n after a cast to uint64, values that wrap to an in-range negative
+        # number when squeezed into a signed type
+        v = [x % n if x < 0 and n else x for x in v if x >= 0 or n]
+        v.insert(rng.randint(0, len(v)), rng.choice([2**64 - 1, 2**64 - max(n, 1), 2**63, 2**63 + 1]))
+        out = {"t": "arr", "v": v, "dtype": "uint64"}
+        if rng.random() < 0.15:
+            out["ro"] = True
+        return out
     big = any(abs(x) > INT32_MAX for x in v)
     dtypes = ["int64", "int64", "int32"]
     if all(0 <= x < 128 for x in v):
@@ -193,6 +202,10 @@ def generate(rng):
             if faulty and bonds and rng.random() < 0.2:
                 bonds[rng.randrange(len(bonds))][rng.randrange(2)] = rng.choice([n, n + 3, -n - 1, -2 * n - 2])
             op = {"op": "new", "dst": dst, "n": n, "bonds": bonds, "cols": rng.choice([2, 3, 3]), "dtype": rng.choice(["int64", "int32", "int64"])}
+            if faulty and bonds and n and rng.random() < 0.08:
+                op["bonds"] = bonds = [[i % n if i < 0 else i, j % n if j < 0 else j, t] for i, j, t in bonds]
+                bonds[rng.randrange(len(bonds))][rng.randrange(2)] = rng.choice([2**64 - 1, 2**64 - n, 2**63])
+                op["dtype"] = "uint64"
             if bonds and rng.random() < 0.35:
                 # other integer dtypes a caller may hold (uint32 is what as_array() hands out); only where every value and
                 # the atom count fit the type
